@@ -7,6 +7,7 @@ pub mod c01;
 pub mod c02;
 pub mod c03;
 pub mod c05;
+pub mod c06;
 pub mod c07;
 pub mod common;
 
@@ -27,7 +28,7 @@ pub struct PropDef {
 }
 
 pub fn all() -> Vec<&'static PropDef> {
-    vec![&c01::DEF, &c02::DEF, &c03::DEF, &c05::DEF, &c07::DEF]
+    vec![&c01::DEF, &c02::DEF, &c03::DEF, &c05::DEF, &c06::DEF, &c07::DEF]
 }
 
 pub fn find(id: &str) -> Option<&'static PropDef> {
